@@ -5,6 +5,7 @@ pub mod buildcheck;
 pub mod c01;
 pub mod c02;
 pub mod c06;
+pub mod c10;
 pub mod c14;
 pub mod c16;
 pub mod c15;
@@ -23,6 +24,7 @@ pub fn meta(id: &str) -> Option<Meta> {
         "C01" => c01::meta(),
         "C02" => c02::meta(),
         "C06" => c06::meta(),
+        "C10" => c10::meta(),
         "C14" => c14::meta(),
         "C15" => c15::meta(),
         "C16" => c16::meta(),
@@ -45,6 +47,7 @@ pub fn run_worker(id: &str, ctx: &Ctx, rep: &mut Report) {
         "C01" => c01::run(ctx, rep),
         "C02" => c02::run(ctx, rep),
         "C06" => c06::run(ctx, rep),
+        "C10" => c10::run(ctx, rep),
         "C14" => c14::run(ctx, rep),
         "C15" => c15::run(ctx, rep),
         "C16" => c16::run(ctx, rep),
